@@ -120,7 +120,7 @@ def verify_one(args):
             out["vacuity_paths"] = verdicts
             out["vacuity_wall_s"] = round(time.time() - t1, 2)
             if all(v == "unsat" for v in verdicts) and len(verdicts) == min(4, len(rets)):
-                out["error"] = "VACUOUS: every probed returning path has contradictory assumptions (ghost assume / callee post / axiom)"
+                out["vacuity_error"] = "VACUOUS: every probed returning path has contradictory assumptions (ghost assume / callee post / axiom)"
         ver = engine_version()
         from concurrent.futures import ThreadPoolExecutor
         from pyvc.solve import check_smt2, to_smt2
@@ -150,6 +150,10 @@ def verify_one(args):
 
         with ThreadPoolExecutor(max_workers=int(os.environ.get("VERIF_SOLVER_THREADS", "4"))) as tp:
             out["obligations"] = list(tp.map(solve, list(zip(eng.obligations, texts))))
+        if out.get("vacuity_error") and all(o["status"] == "proved" for o in out["obligations"]):
+            # contradictory paths AND nothing failed: the proofs are worthless. (With a failed obligation - e.g. an invariant that does not
+            # hold initially on a changed tree - the contradiction is a consequence of that failure, which is what gets reported.)
+            out["error"] = out["vacuity_error"]
     except Exception:
         out["error"] = traceback.format_exc()
     out["wall_s"] = time.time() - t0
